@@ -101,6 +101,11 @@ namespace chaiscript {
             && child.identifier != AST_Node_Type::Ranged_For && contains_var_decl_in_scope(child)) {
           return true;
         }
+
+        // a ranged for evaluates its range expression before it opens its own scope
+        if (child.identifier == AST_Node_Type::Ranged_For && child_count(child) > 1 && contains_var_decl_in_scope(child_at(child, 1))) {
+          return true;
+        }
       }
 
       return false;
